@@ -85,6 +85,7 @@ type MapInv struct {
 type Guard struct {
 	TypeText string
 	Pkg      string
+	GrowOnly map[string]bool // map fields written "name+": never reassigned once set, keys never deleted
 	Fields   []string
 	Mutex    string
 	Src      string
@@ -433,8 +434,14 @@ func (r *Registry) loadContractFile(path string, pkgPath string) error {
 				return fail("guarded needs 'Type: f1, f2 by mutexField'")
 			}
 			g := &Guard{TypeText: m[1], Pkg: pkgPath, Mutex: m[3], Src: s.src}
+			g.GrowOnly = map[string]bool{}
 			for _, f := range strings.Split(m[2], ",") {
-				g.Fields = append(g.Fields, strings.TrimSpace(f))
+				f = strings.TrimSpace(f)
+				if strings.HasSuffix(f, "+") {
+					f = strings.TrimSuffix(f, "+")
+					g.GrowOnly[f] = true
+				}
+				g.Fields = append(g.Fields, f)
 			}
 			r.Guards = append(r.Guards, g)
 			cur = nil
